@@ -19,7 +19,7 @@
 (* moment the n bytes cross the measuring point (tx: written to the        *)
 (* network after the wait; rx: handed to the session after the wait).      *)
 (* Several waiters (streams / connections / sessions of one user) share    *)
-(* the bucket.                                                             *)
+(* the bucket (OwnBucket = FALSE); giving each its own is refuted.         *)
 (*                                                                         *)
 (* The parameters (quantum, fi, burst, which waiters are backlogged) are   *)
 (* chosen in Init, so one TLC run sweeps a whole grid of configurations.   *)
@@ -36,15 +36,17 @@ CONSTANTS Waiters,        \* identities of the goroutines that wait on the bucke
           CapFactor,      \* bucket capacity = CapFactor * burst (1 in Cloak: NewBucketWithRate(rate, rate))
           AllowRelax,     \* TRUE only in the low-rate configurations, see Relax below
           Prompt,         \* TRUE: a waiter proceeds exactly at its wake-up instant (virtual clock)
-          History         \* TRUE: keep the per-instant history so that UpperIntervals can be evaluated
+          History,        \* TRUE: keep the per-instant history so that UpperIntervals can be evaluated
+          OwnBucket       \* FALSE (Cloak): all waiters of the user share ONE bucket.  TRUE: every waiter has a
+                          \* bucket of its own (a valve per session / per user record) - negative configuration
 
 ASSUME Mode \in {"before", "after", "none"}
-ASSUME CapFactor \in Nat \ {0} /\ MaxTime \in Nat /\ AllowRelax \in BOOLEAN /\ Prompt \in BOOLEAN /\ History \in BOOLEAN
+ASSUME CapFactor \in Nat \ {0} /\ MaxTime \in Nat /\ AllowRelax \in BOOLEAN /\ Prompt \in BOOLEAN /\ History \in BOOLEAN /\ OwnBucket \in BOOLEAN
 
 VARIABLES par,      \* [quantum, fi, burst, bl] fixed by Init
           now,      \* clock
-          avail,    \* Bucket.availableTokens (negative while consumers wait)
-          latest,   \* Bucket.latestTick
+          avail,    \* avail[b]: Bucket.availableTokens of bucket b (negative while consumers wait)
+          latest,   \* latest[b]: Bucket.latestTick
           wake,     \* wake[w]: instant at which waiter w may proceed, -1 = not waiting
           pend,     \* pend[w]: bytes w is holding back
           q,        \* virtual queue (upper-bound meter), scaled by fi
@@ -52,6 +54,10 @@ VARIABLES par,      \* [quantum, fi, burst, bl] fixed by Init
           last,     \* instant of the last pass (both meters are brought up to date there)
           passedAt  \* history: bytes that crossed the measuring point at each instant
 vars == <<par, now, avail, latest, wake, pend, q, d, last, passedAt>>
+
+\* the user's bucket(s): one shared by everybody, or (negative configuration) one per waiter
+Buckets     == IF OwnBucket THEN Waiters ELSE {"user"}
+BucketOf(w) == IF OwnBucket THEN w ELSE "user"
 
 MaxSize == CHOOSE s \in Sizes : \A o \in Sizes : o <= s
 Cap     == CapFactor * par.burst
@@ -66,7 +72,7 @@ Slack   == par.quantum
 Init == /\ par \in [quantum : Quanta, fi : FillIntervals, burst : Bursts,
                     bl : {S \in SUBSET Waiters : Cardinality(S) \in BacklogCounts}]
         /\ now = 0
-        /\ avail = CapFactor * par.burst /\ latest = 0
+        /\ avail = [b \in Buckets |-> CapFactor * par.burst] /\ latest = [b \in Buckets |-> 0]
         /\ wake = [w \in Waiters |-> -1] /\ pend = [w \in Waiters |-> 0]
         /\ q = 0 /\ d = 0 /\ last = 0
         /\ passedAt = [t \in 0..MaxTime |-> 0]
@@ -82,13 +88,14 @@ Account(n) ==
 \* ratelimit.go Bucket.take (maxWait = infinity) preceded by adjustavailableTokens
 Take(w, n) ==
   /\ wake[w] = -1
-  /\ LET tk   == now \div par.fi                          \* currentTick(now)
-         a0   == IF avail >= Cap THEN avail               \* adjustavailableTokens
-                 ELSE Min(Cap, avail + (tk - latest) * par.quantum)
+  /\ LET b    == BucketOf(w)
+         tk   == now \div par.fi                          \* currentTick(now)
+         a0   == IF avail[b] >= Cap THEN avail[b]         \* adjustavailableTokens
+                 ELSE Min(Cap, avail[b] + (tk - latest[b]) * par.quantum)
          a1   == a0 - n
          endT == tk + ((-a1 + par.quantum - 1) \div par.quantum)
          wk   == IF a1 >= 0 THEN now ELSE endT * par.fi   \* now + waitTime
-     IN /\ avail' = a1 /\ latest' = tk
+     IN /\ avail' = [avail EXCEPT ![b] = a1] /\ latest' = [latest EXCEPT ![b] = tk]
         /\ CASE Mode = "before" -> /\ wake' = [wake EXCEPT ![w] = wk]
                                    /\ pend' = [pend EXCEPT ![w] = n]
                                    /\ UNCHANGED <<q, d, last, passedAt>>
@@ -122,7 +129,7 @@ Spec == Init /\ [][Next]_vars
 Symm == Permutations(Waiters)
 
 -----------------------------------------------------------------------------
-TypeOK == /\ now \in 0..MaxTime /\ avail \in Int /\ latest \in Nat
+TypeOK == /\ now \in 0..MaxTime /\ \A b \in Buckets : avail[b] \in Int /\ latest[b] \in Nat
           /\ \A w \in Waiters : wake[w] \in Int /\ pend[w] \in Nat
           /\ q \in Nat /\ d \in Nat /\ last \in 0..MaxTime
 
